@@ -64,7 +64,7 @@ Definition dec_cls (v : vl) : option (N * (bool * bool)) :=
   end.
 
 (* validity: 0 = StrftimeItems yields an Item::Error, 1 = valid and renders,
-   2 = valid but Display fails (fmt::Error) *)
+   2 = parses but Display fails (fmt::Error); the pattern compiler accepts 1 only *)
 Definition time_tbl := list (str * (N * (str * str))).
 
 Fixpoint time_get (t : time_tbl) (f : str) : option (N * (str * str)) :=
@@ -74,11 +74,11 @@ Fixpoint time_get (t : time_tbl) (f : str) : option (N * (str * str)) :=
   end.
 
 Definition strftime_ok_of (t : time_tbl) (f : str) : bool :=
-  match time_get t f with Some (ok, _) => negb (ok =? 0) | None => false end.
-Definition time_str_of (t : time_tbl) (f : str) (z : tz) : option str :=
+  match time_get t f with Some (ok, _) => ok =? 1 | None => false end.
+Definition time_str_of (t : time_tbl) (f : str) (z : tz) : str :=
   match time_get t f with
-  | Some (k, (u, l)) => if k =? 1 then Some (match z with Utc => u | Local => l end) else None
-  | None => None
+  | Some (_, (u, l)) => match z with Utc => u | Local => l end
+  | None => []
   end.
 
 Definition dec_time (v : vl) : option (str * (N * (str * str))) :=
@@ -285,8 +285,8 @@ Definition c09_run (v : vl) : vl :=
               VL [VN 1;
                   VB (wf_seq al an true false seq);
                   VB (wf_seq al an false false seq);
-                  VB (forallb (sem_ok ok (time_str_of (d_times d))) seq);
-                  VB (forallb (sem_ok_mod_class ok (time_str_of (d_times d))) seq);
+                  VB (forallb (sem_ok ok) seq);
+                  VB (forallb (sem_ok_mod_class ok) seq);
                   VB (existsb in_known_class seq)];
               enc_result (meaning_seq (time_str_of (d_times d)) (d_env d) seq)]
         end
